@@ -97,10 +97,12 @@ def rule_1(ctx):
     """`$` is dropped from the coordinates of a reference before a cell is looked up, the sheet part stays as it is - decided by
     interpreting the package's own remover(s) on witness spellings (also a sheet title that contains a `$`), by lemma L4 (the
     terms of a formula: $-free, qualified with the formula's own sheet) and, end to end, by the $-variants of C03.5 / C03.9."""
-    sans = _sanitiser_funcs(ctx)
     um = ctx.mod('utils')
+    sans = {}
     if um.has_func('strip_absolute'):
-        sans.setdefault('pkg:utils:strip_absolute', (um, um.func('strip_absolute')))
+        sans['pkg:utils:strip_absolute'] = (um, um.func('strip_absolute'))       # the package's documented remover
+    else:
+        sans = {r: v for r, v in _sanitiser_funcs(ctx).items() if r.startswith('pkg:utils:')}
     from . import corelemma
     corelemma.rule_formula_per_sheet(ctx)
     if not sans:
